@@ -381,7 +381,13 @@ def mkMeta (id stratum : String) (vs : List Variant) (kfCls : String := "KF-fold
     payload := vs.map (·.src) }
 
 def plain (a : Ast) : Variant := ⟨a, a.toSource⟩
-def fullv (a : Ast) : Variant := ⟨a, a.toSourceFull⟩
+
+/-- number of tokens of the fully parenthesised text (the wbnf parser is super-linear in nesting depth) -/
+def fullSize (a : Ast) : Nat := (toks true a).length
+
+/-- every sub-term parenthesised; for big programs (slow to parse) only the outermost levels -/
+def fullv (a : Ast) : Variant :=
+  if fullSize a ≤ 160 then ⟨a, a.toSourceFull⟩ else ⟨a, render (["("] ++ toks false a ++ [")"])⟩
 
 def withTrivia (a : Ast) (full : Bool) : Gen Variant := do
   let ts := toks full a
